@@ -154,10 +154,16 @@ def run(rep, facts):
                         if p.term["k"] == "switch" and not p.noise():
                             de = ir.peel(ev.switch_expr(p))
                             if de[0] == 'call' and de[1] == "<std::io::ErrorKind as std::cmp::PartialEq>::eq":
-                                ks = {y[2].split("::")[-1] for y in ir.walk(de) if y[0] == 'agg' and y[2].startswith("std::io::ErrorKind::")}
-                                hk = any(y[0] == 'call' and y[1].endswith("FnMut::call_mut") for y in ir.walk(de))
-                                if ks == {"ConnectionAborted"} and hk and isinstance(lab, tuple) and lab[0] == 'otherwise':
-                                    guard_ok = True
+                                # one operand is the constant kind, the other kind() of the handler's own error
+                                for (c_, v_) in ((de[2][0], de[2][1]), (de[2][1], de[2][0])):
+                                    cc = ir.peel(c_)
+                                    if not (cc[0] == 'agg' and cc[2].startswith("std::io::ErrorKind::")):
+                                        continue
+                                    vv = ir.peel(v_)
+                                    hk = vv[0] == 'call' and vv[1].endswith("::kind") and any(
+                                        y[0] == 'call' and y[1].endswith("FnMut::call_mut") for y in ir.walk(vv))
+                                    if cc[2].split("::")[-1] == "ConnectionAborted" and hk and isinstance(lab, tuple) and lab[0] == 'otherwise':
+                                        guard_ok = True
                             continue
                         work.append(p)
     if guard_ok:
